@@ -43,16 +43,17 @@ def run(sc, tier, seed):
     V.build_harness("c07")
     # ---- design level
     if tier == "quick":
-        cfgs = ["Pipeline_quick.cfg", "Pipeline_quick_k2.cfg", "Pipeline_loopclose.cfg"]
+        cfgs = ["Pipeline_quick.cfg", "Pipeline_loopclose.cfg"]   # K=2: Pipeline_quick_k2.cfg by hand, thorough tier has K=2 with 4 and 5 points
     else:
-        cfgs = ["Pipeline_thorough.cfg", "Pipeline_thorough_k2.cfg", "Pipeline_thorough_buf.cfg", "Pipeline_loopclose.cfg"]
+        cfgs = ["Pipeline_thorough.cfg", "Pipeline_thorough_k2.cfg", "Pipeline_thorough_buf.cfg", "Pipeline_thorough_p5.cfg", "Pipeline_loopclose.cfg"]
     per_cfg = {}
     for cfg in cfgs:
         res = V.model_check(sc, "Pipeline", "PipelineMC.tla", cfg, timeout=2400)
         R.add_model(res)
         per_cfg[cfg] = {"distinct": res["distinct"], "generated": res["states"], "wall_s": round(res["wall"], 1)}
     observed = {}
-    for cfg, want, what in ORIGINAL:
+    originals = ORIGINAL if tier != "quick" else [o for o in ORIGINAL if o[0] in ("Pipeline_orig_influx.cfg", "Pipeline_loop.cfg")]
+    for cfg, want, what in originals:
         res = V.model_check(sc, "Pipeline", "PipelineMC.tla", cfg, workers=4, timeout=600, expect_violation=[want])
         if res["violated"] != want:
             raise V.Broken("model %s no longer produces the counterexample %s (%s): the specification went blind" % (cfg, want, what))
@@ -60,7 +61,7 @@ def run(sc, tier, seed):
     # ---- B3: gate-forced stop schedules on the real code, validated run by run
     out, meta = V.run_driver(sc, "c07", tier, seed, timeout=3000)
     R.add_meta(meta)
-    val = V.validate_traces(sc, "Pipeline", "PipelineTraceMC.tla", "PipelineTrace.cfg", meta["trace_files"], parallel=8)
+    val = V.validate_traces(sc, "Pipeline", "PipelineTraceMC.tla", "PipelineTrace.cfg", meta["trace_files"], parallel=3)
     R.states += val["states"]
     R.handle_validation(val, what="recorded stop of a real task violates C07 (loss at stop return / stop never returns / goroutines left)")
     _keep_dumps(R, out)
